@@ -343,14 +343,14 @@ RAND_ALPHA = ["a", "b", "c", " ", " ", "\n", "\n", ".", "-", "_", "世", "é", "
 ARGS_SMALL = ["N", "-", -2, 0, 1, 2, 1000000]
 
 
-def emacs_single_seqs(n):
+def emacs_single_seqs(n, quick=False):
     """for a text of length n: every kill command with every argument class, followed by yank and
     yank-pop; every pair of word kills (repeat accumulation) followed by yank"""
     seqs = []
-    args = ARGS_SMALL + [n + 2]
+    args = ["N", "-", 0, 2, n + 2] if quick else ARGS_SMALL + [n + 2]
     for cmd in ("kl", "kw", "wr", "bk"):
         for a in args:
-            seqs.append([[a, cmd], ["N", "y"], ["N", "yp"], ["N", "yp"]])
+            seqs.append([[a, cmd], ["N", "y"], ["N", "yp"]] + ([] if quick else [["N", "yp"]]))
     seqs.append([["N", "ld"], ["N", "y"], ["N", "yp"]])
     seqs.append([[2, "ld"], ["N", "y"]])
     for c1 in ("kw", "wr", "bk", "kl"):
@@ -371,7 +371,8 @@ def emacs_single_seqs(n):
     for a in range(n + 1):
         for b in range(n + 1):
             seqs.append([["N", "reg", a, b, 1], ["N", "y"]])
-            seqs.append([["N", "reg", a, b, 0], ["N", "y"], ["N", "yp"]])
+            if not quick or a < b:
+                seqs.append([["N", "reg", a, b, 0], ["N", "y"], ["N", "yp"]])
     return seqs
 
 
@@ -419,8 +420,8 @@ def cases(tier, rng):
     # ---- emacs, exhaustive small scope
     maxlen = 3 if quick else 4
     for n in range(maxlen + 1):
-        seqs = emacs_single_seqs(n)
-        for tup in itertools.product(ALPHA, repeat=n):
+        seqs = emacs_single_seqs(n, quick)
+        for tup in itertools.product(ALPHA[:3] if quick and n == 3 else ALPHA, repeat=n):
             text = "".join(tup)
             for cur in range(n + 1):
                 yield {"kind": "emacs", "text": text, "cur": cur, "max": 3,
@@ -437,7 +438,7 @@ def cases(tier, rng):
     # ---- vi, exhaustive small scope
     vmax = 3 if quick else 4
     for n in range(vmax + 1):
-        seqs = vi_single_seqs(n)
+        seqs = vi_single_seqs(n, quick)
         for tup in itertools.product(VI_ALPHA, repeat=n):
             text = "".join(tup)
             for cur in range(n + 1):
@@ -470,9 +471,9 @@ VI_ALPHA = ["a", " ", "\n"]
 REGS = [ord("a"), ord("z"), ord("0"), ord("9"), ord("A"), ord("%")]
 
 
-def vi_single_seqs(n):
+def vi_single_seqs(n, quick=False):
     seqs = []
-    counts = ["N", 1, 2, n + 2, 1000000]
+    counts = ["N", 2, n + 2] if quick else ["N", 1, 2, n + 2, 1000000]
     for cmd in ("x", "X", "s", "dd", "yy"):
         for c in counts:
             seqs.append([[c, cmd], ["N", "P"]])
@@ -487,11 +488,14 @@ def vi_single_seqs(n):
     for ty in "clb":
         for a in range(n + 1):
             for b in range(n + 1):
+                if quick and a > b and (a + b) % 2:
+                    continue
                 seqs.append([["N", "vis", ty, a, b, "x", None], ["N", "P"]])
                 seqs.append([["N", "vis", ty, a, b, "d", None], ["N", "P"]])
-                seqs.append([["N", "vis", ty, a, b, "y", None], [2, "p"]])
                 seqs.append([["N", "vis", ty, a, b, "y", ord("a")], ["N", "rp", ord("a"), 1], [2, "rp", ord("a"), 0]])
-                seqs.append([["N", "vis", ty, a, b, "d", ord("q")], ["N", "rp", ord("q"), 0]])
+                if not quick:
+                    seqs.append([["N", "vis", ty, a, b, "y", None], [2, "p"]])
+                    seqs.append([["N", "vis", ty, a, b, "d", ord("q")], ["N", "rp", ord("q"), 0]])
     return seqs
 
 
@@ -517,7 +521,8 @@ PASTE_DATA = ["", "x", "xy", "x\ny", "\n", "x\n", "\nx", "x\ny\nz"]
 def paste_cases(tier, rng):
     quick = tier == "quick"
     maxlen = 3 if quick else 4
-    counts = [-1, 0, 1, 2, 3]
+    counts = [-1, 0, 1, 2] if quick else [-1, 0, 1, 2, 3]
+    datas = PASTE_DATA[:6] if quick else PASTE_DATA
     alpha = ["a", " ", "\n"]
     for n in range(maxlen + 1):
         for tup in itertools.product(alpha, repeat=n):
@@ -525,7 +530,7 @@ def paste_cases(tier, rng):
             qs = []
             for cur in range(n + 1):
                 for ty in "clb":
-                    for data in PASTE_DATA:
+                    for data in datas:
                         for mode in "eBA":
                             for count in counts:
                                 qs.append([cur, ty, data, mode, count])
@@ -673,8 +678,10 @@ def oracle_emacs_seq(case, tr, bad0):
                     f"text before the kill(s) was {origin!r}")
         elif cmd == "yp":
             D = b["dbp"]
-            if prev is not None and prev[0] in ("y", "yp") and D is None:
+            if prev is not None and prev[0] in ("y", "yp+") and D is None:
                 bad("named_commands.yank-pop", "no document_before_paste after yank", "yank-pop")
+            if D is not None:
+                this = ("yp+", False)
             if D is None:
                 if (T2, c2, a["ring"]) != (T, c, b["ring"]):
                     bad("named_commands.yank-pop", "changed something without a previous yank", "yank-pop")
